@@ -418,6 +418,48 @@ def acceptance(ctx):
                             f.file, x.line)
 
 
+def sections_not_derived_from_code(ctx):
+    """With debug info the instruction list contains markers, and the
+    peephole pass stops at them, so the list differs from the one without
+    debug info (unreachable code survives, windows differ).  Sections 1-3
+    must therefore never be recomputed from the instruction list: their
+    tables are filled by the generators (add_string_literal, add_data, ...)
+    and only read afterwards."""
+    from .. import effects
+    repo = ctx.repo
+    rule = 'C08.sections-are-not-derived-from-the-instruction-list'
+    ctx.rule(rule, 'no method of QvmCode that reads self._instrs also '
+             'writes the literal, data or globals tables (self._string_'
+             'literals, self._data, self._globals): what goes into sections '
+             '1-3 must not depend on which instructions survive the '
+             'peephole pass, which differs with debug markers')
+    cls = repo.cls('qbee.qvm_codegen', 'QvmCode')
+    tables = ('_string_literals', '_data', '_globals')
+    n = 0
+    for name, m in sorted(cls.methods.items()):
+        reads_instrs = any(isinstance(x, ast.Attribute) and
+                           x.attr == '_instrs' and
+                           isinstance(x.ctx, ast.Load)
+                           for x in ast.walk(m.node))
+        writes = [(kind, path, line, text) for kind, root, path, line, text
+                  in effects.writes(m.node)
+                  if root == 'self' and path.split('.')[0] in tables]
+        n += 1
+        construct = f'{m.file}:QvmCode.{name}'
+        ctx.instance(rule, construct, nontrivial=bool(writes),
+                     sample={'reads_instrs': reads_instrs,
+                             'writes': [w[3] for w in writes]})
+        if reads_instrs and writes and name != '__init__':
+            ctx.finding(rule, construct,
+                        f'QvmCode.{name} reads the instruction list and '
+                        f'writes {sorted({w[3] for w in writes})}: the '
+                        f'section contents would depend on the instructions '
+                        f'that survive optimisation, which are not the same '
+                        f'with and without debug markers', m.file,
+                        writes[0][2])
+    ctx.floor('QvmCode methods examined', n, 10)
+
+
 def run(ctx):
     ctx.clauses = [
         'the debug flag controls only pseudo-instruction emission and '
@@ -433,6 +475,7 @@ def run(ctx):
     assembler_transparency(ctx)
     optimizer_window(ctx)
     acceptance(ctx)
+    sections_not_derived_from_code(ctx)
     from .. import gensim
     gensim.check_flag_equivalence(ctx, 'C08')
     return ('Control-dependence slice of the debug flag over the CFGs of '
